@@ -62,6 +62,8 @@ func (r *BatchedPrivateTokenRequest) Marshal() []byte {
 }
 
 func (r *BatchedPrivateTokenRequest) Unmarshal(data []byte) bool {
+	// Forget the cached encoding of any value held before
+	r.raw = nil
 	s := cryptobyte.String(data)
 
 	var tokenType uint16
